@@ -1,11 +1,190 @@
-/- Driver ops for C06. -/
+/- Driver ops for C06 (mappers).  Everything here is rational ⇒ exact `Rat` throughout. -/
 import Driver.Loop
+import Model.Mapper
 
 open Lean Model
 
 namespace Driver.C06
 
-def ops : List (String × Op) := []
+def getPair (j : Json) : Except String (Rat × Rat) := do
+  match ← getRats j with
+  | [a, b] => pure (a, b)
+  | _ => throw "expected pair"
+
+def getPairs := getList getPair
+def getIntMat := getList getInts
+def pairToJsonQ (p : Rat × Rat) : Json := ratsToJson [p.1, p.2]
+def intMatToJson (m : List (List Int)) : Json := listToJson intsToJson m
+
+/-- numpy would wrap a negative position or raise IndexError: outside the modelled domain. -/
+def checkTables (idx : List (List Int)) (sizes : List Nat) (nSub pixels : Nat) : Except String Unit := do
+  for sub in List.range nSub do
+    let row := idx.getD sub []
+    let sz := sizes.getD sub 0
+    if sz > row.length then throw "index_out_of_range"
+    for c in List.range sz do
+      let e := row.getD c (-1)
+      if e < 0 || e ≥ (pixels : Int) then throw "index_out_of_range"
+
+def uniqueToJson (u : List (List Int) × List (List Rat) × List Nat) : Json :=
+  obj [("data_to_pix_unique", intMatToJson u.1), ("data_weights", ratMatToJson u.2.1),
+       ("pix_lengths", natsToJson u.2.2)]
+
+/-- everything downstream of the three `PixSubWeights` tables -/
+def mapperCommon (m : Mask) (sub : List Nat) (psw : PixSubWeights Rat) (pixels : Nat) :
+    Except String (List (String × Json)) := do
+  let slimFor := Impl.slimForSubSlim m sub
+  let total := sub.length
+  let frac : List Rat := sub.map fun s => Impl.subFraction s
+  checkTables psw.mappings psw.sizes slimFor.length pixels
+  if slimFor.any (· ≥ total) then throw "index_out_of_range"
+  let mm := Impl.mappingMatrix psw.mappings psw.sizes psw.weights pixels total slimFor frac
+  let uq := Impl.uniqueFrom total psw.mappings psw.sizes psw.weights pixels sub
+  pure [("slim_for_sub_slim", natsToJson slimFor), ("sub_fraction", ratsToJson frac),
+        ("mappings", intMatToJson psw.mappings), ("sizes", natsToJson psw.sizes),
+        ("weights", ratMatToJson psw.weights), ("mapping_matrix", ratMatToJson mm),
+        ("unique", uniqueToJson uq)]
+
+def getGeom (h w : Nat) (j : Json) : Except String (Impl.RectGeom Rat) := do
+  pure { h := h, w := w, sy := ← getRat (← field j "sy"), sx := ← getRat (← field j "sx"),
+         oy := ← getRat (← field j "oy"), ox := ← getRat (← field j "ox") }
+
+def geomToJson (g : Impl.RectGeom Rat) : Json :=
+  obj [("sy", ratToJson g.sy), ("sx", ratToJson g.sx), ("oy", ratToJson g.oy), ("ox", ratToJson g.ox)]
+
+def nbToJson (nb : List (List Int) × List Nat) : List (String × Json) :=
+  [("neighbors", intMatToJson nb.1), ("neighbors_sizes", natsToJson nb.2)]
+
+/-- rectangular mapper: overlay geometry (exact), cell indexes with the geometry the mesh object
+    actually carries (`geom`, the implementation's doubles, exact), tables, matrix, unique, neighbours -/
+def mapperRect : Op := fun j => do
+  let m ← getMask (← field j "mask")
+  let sub ← getNats (← field j "sub_size")
+  let grid ← getPairs (← field j "grid")
+  let h ← getNat (← field j "h")
+  let w ← getNat (← field j "w")
+  let buffer ← getRat (← field j "buffer")
+  let g ← getGeom h w (← field j "geom")
+  if g.sy == 0 || g.sx == 0 then throw "zero_scale"
+  let ov : Impl.RectGeom Rat := Impl.overlayGrid h w grid buffer
+  let coords := grid.map (Impl.pixelCoord g)
+  let psw : PixSubWeights Rat := Impl.rectPixSubWeights truncRat g grid
+  let common ← mapperCommon m sub psw (h * w)
+  pure (obj ([("overlay", geomToJson ov), ("pixel_coord", listToJson pairToJsonQ coords)]
+    ++ common ++ nbToJson (Impl.rectNeighbors h w)))
+
+/-- Delaunay mapper given Qhull's tables (simplices, find_simplex, vertex_neighbor_vertices) -/
+def mapperDelaunay : Op := fun j => do
+  let m ← getMask (← field j "mask")
+  let sub ← getNats (← field j "sub_size")
+  let grid ← getPairs (← field j "grid")
+  let points ← getPairs (← field j "points")
+  let simplices ← getIntMat (← field j "simplices")
+  let findSimplex ← getInts (← field j "find_simplex")
+  let indptr ← getNats (← field j "indptr")
+  let indices ← getNats (← field j "indices")
+  let n := points.length
+  if findSimplex.any (fun s => s < -1 || s ≥ (simplices.length : Int)) then throw "index_out_of_range"
+  if simplices.any (fun s => s.length != 3 || s.any (fun v => v < 0 || v ≥ (n : Int))) then
+    throw "index_out_of_range"
+  let psw : PixSubWeights Rat := Impl.delaunayPixSubWeights grid points findSimplex simplices
+  -- a zero `norm` is a degenerate triangle: numpy yields nan, the model's total division 0
+  for sub in List.range grid.length do
+    let pix := psw.mappings.getD sub []
+    if pix.getD 1 (-1) != -1 then
+      let v := fun k => points.getD (pix.getD k 0).toNat (0, 0)
+      let p := grid.getD sub (0, 0)
+      if Impl.triangleArea (v 1) (v 2) p + Impl.triangleArea (v 0) (v 2) p
+          + Impl.triangleArea (v 0) (v 1) p == 0 then throw "degenerate_triangle"
+  let common ← mapperCommon m sub psw n
+  let simpNat := simplices.map fun s => s.map Int.toNat
+  pure (obj (common ++ nbToJson (Impl.delaunayNeighbors indptr indices n)
+    ++ [("neighbors_from_simplices",
+          listToJson natsToJson (Spec.neighborsFromSimplices n simpNat))]))
+
+/-- `mapper_util.mapping_matrix_from` on raw tables -/
+def mappingMatrix : Op := fun j => do
+  let idx ← getIntMat (← field j "idx")
+  let sizes ← getNats (← field j "sizes")
+  let wts ← getRatMat (← field j "wts")
+  let pixels ← getNat (← field j "pixels")
+  let total ← getNat (← field j "total")
+  let slimFor ← getNats (← field j "slim_for")
+  let frac ← getRats (← field j "frac")
+  checkTables idx sizes slimFor.length pixels
+  if slimFor.any (· ≥ total) then throw "index_out_of_range"
+  pure (ratMatToJson (Impl.mappingMatrix idx sizes wts pixels total slimFor frac))
+
+/-- `mapper_util.data_slim_to_pixelization_unique_from` on raw tables -/
+def uniqueFrom : Op := fun j => do
+  let idx ← getIntMat (← field j "idx")
+  let sizes ← getNats (← field j "sizes")
+  let wts ← getRatMat (← field j "wts")
+  let pixPixels ← getNat (← field j "pix_pixels")
+  let dataPixels ← getNat (← field j "data_pixels")
+  let sub ← getNats (← field j "sub_size")
+  checkTables idx sizes ((sub.take dataPixels).foldl (fun a s => a + s * s) 0) pixPixels
+  pure (uniqueToJson (Impl.uniqueFrom dataPixels idx sizes wts pixPixels sub))
+
+def baryWeights : Op := fun j => do
+  let v0 ← getPair (← field j "v0")
+  let v1 ← getPair (← field j "v1")
+  let v2 ← getPair (← field j "v2")
+  let p ← getPair (← field j "p")
+  if Impl.triangleArea v1 v2 p + Impl.triangleArea v0 v2 p + Impl.triangleArea v0 v1 p == 0 then
+    throw "degenerate_triangle"
+  pure (ratsToJson (Impl.baryWeights v0 v1 v2 p))
+
+def nearestVertex : Op := fun j => do
+  let points ← getPairs (← field j "points")
+  let p ← getPair (← field j "p")
+  pure (natToJson (Impl.argminFirst (points.map (Impl.sqDist p))))
+
+def rectCellIndex : Op := fun j => do
+  let h ← getNat (← field j "h")
+  let w ← getNat (← field j "w")
+  let g ← getGeom h w (← field j "geom")
+  let grid ← getPairs (← field j "grid")
+  if g.sy == 0 || g.sx == 0 then throw "zero_scale"
+  pure (obj [("indexes", intsToJson (Impl.gridPixelIndexes truncRat g grid)),
+             ("pixel_coord", listToJson pairToJsonQ (grid.map (Impl.pixelCoord g)))])
+
+def rectOverlay : Op := fun j => do
+  let h ← getNat (← field j "h")
+  let w ← getNat (← field j "w")
+  let grid ← getPairs (← field j "grid")
+  let buffer ← getRat (← field j "buffer")
+  pure (geomToJson (Impl.overlayGrid h w grid buffer))
+
+def rectNeighbors : Op := fun j => do
+  let h ← getNat (← field j "h")
+  let w ← getNat (← field j "w")
+  pure (obj (nbToJson (Impl.rectNeighbors h w)
+    ++ [("spec_equal", Json.bool (Impl.rectNeighbors h w == Spec.rectNeighbors h w))]))
+
+def neighborsFromSimplices : Op := fun j => do
+  let n ← getNat (← field j "n")
+  let simplices ← getList getNats (← field j "simplices")
+  pure (listToJson natsToJson (Spec.neighborsFromSimplices n simplices))
+
+def delaunayNeighbors : Op := fun j => do
+  let n ← getNat (← field j "n")
+  let indptr ← getNats (← field j "indptr")
+  let indices ← getNats (← field j "indices")
+  pure (obj (nbToJson (Impl.delaunayNeighbors indptr indices n)))
+
+def slimForSubSlim : Op := fun j => do
+  let m ← getMask (← field j "mask")
+  let sub ← getNats (← field j "sub_size")
+  pure (natsToJson (Impl.slimForSubSlim m sub))
+
+def ops : List (String × Op) :=
+  [("c06.mapper_rect", mapperRect), ("c06.mapper_delaunay", mapperDelaunay),
+   ("c06.mapping_matrix", mappingMatrix), ("c06.unique_from", uniqueFrom),
+   ("c06.bary_weights", baryWeights), ("c06.nearest_vertex", nearestVertex),
+   ("c06.rect_cell_index", rectCellIndex), ("c06.rect_overlay", rectOverlay),
+   ("c06.rect_neighbors", rectNeighbors), ("c06.neighbors_from_simplices", neighborsFromSimplices),
+   ("c06.delaunay_neighbors", delaunayNeighbors), ("c06.slim_for_sub_slim", slimForSubSlim)]
 
 end Driver.C06
 
